@@ -77,7 +77,7 @@ def call_flags(pr, j):
 
     def one(use, which):
         tainted = grammar.non_pristine(pr, which)
-        if use == 'none':
+        if use == 'none' or pr.context in grammar.SHADOW_CONTEXTS:
             return False, False
         if use == 'own' and not tainted:
             return True, False
@@ -158,7 +158,7 @@ def exec_call(ld, n, K):
         return False
     except Exception as e:  # noqa
         raise runner.HarnessError('generated program raised %s: %s\n%s' % (type(e).__name__, e, grammar.render(ld.prog, ld.uid)))
-    if ld.prog.route == 'partial':
+    if ld.prog.route == 'partial' and isinstance(r, functools.partial):
         # the wrapper returned functools.partial(callee, ...): surplus arguments must bind partially
         import inspect
         try:
